@@ -201,6 +201,27 @@ def rule_handout(ctx):
                      or (n.kind == "call" and not (unparse(n.ast.func) in ("len", "isinstance") or unparse(n.ast.func).startswith("log.")))]
             ctx.ob(R, fx, u, not risky, f"{m}: after the position moved the call can still run {[unparse(x.ast)[:50] if x.kind != 'fornext' else 'next iteration of ' + unparse(x.ast.iter)[:40] for x in risky[:3]]}; "
                                         "when that raises, the records already taken are dropped with the exception but the position is past them", text=f"{m}:nothing-after-position-moved")
+        # ... and the position does not move at all when the take itself raised (corrupt batch, failing deserializer): the records taken so
+        # far leave with the exception, the next hand-out must find position != next_fetch_offset, drop the buffer and fetch them again
+        takes = [n for n in cx.nodes if (n.kind == "call" and call_name(n.ast) == "next") or (n.kind in ("foriter", "fornext") and "_partition_records" in unparse(n.ast.iter))]
+        bad = []
+        for t_ in takes:
+            for m_, l_ in t_.succ:
+                if l_ == "exc" and any(u in cx.reachable([m_], exc=True, include_src=True) for u in ups):
+                    bad.append(t_)
+        # (the CFG gives `for` iteration no exception edge: the same question asked of the syntax -- a position update in the finally / except
+        # part of a try whose body takes records)
+        def _is_take(x):
+            return (isinstance(x, (ast.For, ast.AsyncFor)) and "_partition_records" in unparse(x.iter)) or \
+                   (isinstance(x, ast.Call) and isinstance(x.func, ast.Name) and x.func.id == "next" and x.args and "_partition_records" in unparse(x.args[0]))
+        for tr in [x for x in ast.walk(fx.node) if isinstance(x, ast.Try)]:
+            if any(_is_take(y) for st_ in tr.body for y in ast.walk(st_)):
+                tail = list(tr.finalbody) + [st_ for h in tr.handlers for st_ in h.body]
+                for y in [y for st_ in tail for y in ast.walk(st_)]:
+                    if isinstance(y, ast.Call) and call_attr(y) == "_update_position":
+                        bad.append(y)
+        ctx.ob(R, fx, fx.node, not bad, f"{m}: _update_position() also runs when taking records raised (line {bad[0].lineno if bad else 0}: a finally / except arm): the partition "
+                                        "moves past records that were never returned", text=f"{m}:position-not-moved-on-error")
     # an exhausted iterator gives up the buffer (has_more() turns False): otherwise the entry is never removed and the partition never re-fetched
     from ..rulekit import none_tests
     fg1 = ctx.fn(f"{FR}.getone")
@@ -229,7 +250,11 @@ def rule_handout(ctx):
     cg = ctx.cfg(fg)
     rets = [r for r in cg.nodes if r.kind == "return" and isinstance(r.ast.value, ast.Name)]
     apps = [n for n in cg.calls(attr="append")]
-    ctx.ob(R, fg, fg.node, len(rets) == 1 and len(apps) == 1 and dotted(apps[0].ast.func.value) == rets[0].ast.value.id, "getall does not return exactly the records it took", text="getall-returns-taken")
+    # every return reachable after a record was taken returns the list the records were appended to (one return after the loop, or an
+    # early return on the max_records arm as well)
+    after = [r for r in cg.nodes if r.kind == "return" and apps and any(cg.path_exists(a_, r, exc=False) for a_ in apps)]
+    ctx.ob(R, fg, fg.node, len(rets) >= 1 and len(apps) == 1 and bool(after) and all(isinstance(r.ast.value, ast.Name) and dotted(apps[0].ast.func.value) == r.ast.value.id for r in after),
+           "getall does not return exactly the records it took", text="getall-returns-taken")
 
 
 def rule_exhausted_removed(ctx):
